@@ -143,6 +143,12 @@ class MemServer:
         self._log("delete", key)
         return self.d.pop(key, None) is not None
 
+    def delete_many(self, keys, *a, **k):
+        for key in keys:
+            self._log("delete", key)
+            self.d.pop(key, None)
+        return True
+
     def incr(self, key, value, *a, **k):
         self._log("incr", key)
         if key not in self.d:
@@ -250,7 +256,7 @@ def search(ctx):
                 if not (found and found[-1]["size"] == len(hist)) and list(hc.hasher.nodes) == nodes_before and hc.hasher.nodes:
                     ks = rng.sample(keys, rng.randrange(2, 9))
                     for fam, call in (("set_many", lambda: hc.set_many({k: b"3" for k in ks})), ("get_many", lambda: hc.get_many(ks)),
-                                      ("gets_many", lambda: hc.gets_many(ks))):
+                                      ("gets_many", lambda: hc.gets_many(ks)), ("delete", lambda: hc.delete_many(ks))):
                         MemServer.calls = []
                         # a server with a failure record may be inside its retry window: it is then legitimately not contacted at all
                         pending = {hs.server_name(sv) for sv in hc._failed_clients}
@@ -269,7 +275,7 @@ def search(ctx):
                         skipped = {sv for sv in pending if not any(g[0] == sv for g in got_pairs)}
                         exp_pairs = [e for e in exp_pairs if e[0] not in skipped]
                         if got_pairs != sorted(exp_pairs):
-                            found.append({"clause": "%s(%r): servers received %r, placement assigns %r" % (fam, ks, got_pairs[:8], sorted(exp_pairs)[:8]),
+                            found.append({"clause": "%s(%r): servers received %r, placement assigns %r" % ("delete_many" if fam == "delete" else fam, ks, got_pairs[:8], sorted(exp_pairs)[:8]),
                                           "input": {"servers": repr(servers), "prefix": repr(prefix), "history": repr(hist), "keys": repr(ks)}, "size": len(hist)})
                             break
                 MemServer.down = downs
